@@ -552,3 +552,32 @@ def r9_radial_roots(ck, P):
             ck.violation(R, f.name, 'gradient parameter of the %s case' % ('linear (a == 0)' if linear else 'quadratic'), 'radial_write_color writes the colour for t = %s, which does not solve a*T^2 - 2*b*T + c = 0 (residue %s): the colour of every pixel on that branch is taken at the wrong position of the gradient' % (sympy.simplify(t), res), x.loc())
     if n == 0:
         ck.incomplete(R, 'no call of the colour writer found in radial_write_color')
+
+
+def r10_widen_before_arithmetic(ck, P, rid='C13-R10'):
+    """T-WID: a 16.16 coordinate taken from a pixman_vector_t / pixman_transform_t that takes part in 64-bit arithmetic is widened
+    first; doubling, adding or multiplying it in 32 bits and widening the result wraps for coordinates beyond 2^14 pixels."""
+    R = ck.rule(rid, 'wherever a value loaded from a pixman_vector_t or pixman_transform_t is sign-extended to 64 bits, the extension is applied to the loaded coordinate itself, not to the result of 32-bit arithmetic (add, sub, mul, shl) on it: 2 * v + u formed in pixman_fixed_t overflows for positions beyond 16384 pixels although the 48.16 consumer could hold it', floor=65)
+    for un, u in sorted(P.units.items()):
+        for fn, f in sorted(u.functions.items()):
+            def leaf_vec(o, d=0):
+                z = f.v(o)
+                if z is None or d > 6:
+                    return False
+                if z.op == 'load':
+                    s = str(f.path(z.a[0]))
+                    return 'pixman_vector' in s or 'pixman_transform' in s
+                if z.op in ('add', 'sub', 'mul', 'shl', 'sext', 'trunc'):
+                    return any(leaf_vec(a, d + 1) for a in z.a if a and a[0] == 'v')
+                return False
+            for x in f.insts():
+                if x.op != 'sext' or x.ty != 'i64':
+                    continue
+                y = f.v(x.a[0])
+                if y is None or y.ty != 'i32' or not leaf_vec(x.a[0]):
+                    continue
+                ck.saw(f)
+                if y.op in ('add', 'sub', 'mul', 'shl'):
+                    ck.violation(R, fn, '32-bit %s widened at %s' % (y.op, x.loc()), '%s computes a %s of transform/vector coordinates in 32 bits and only then extends the result to 64 bits: for source positions beyond +-16384 pixels the intermediate wraps, so the value handed to the 64-bit computation (and every pixel derived from it incrementally) is wrong although the first pixel of the scanline is still right' % (fn, {'add': 'sum', 'sub': 'difference', 'mul': 'product', 'shl': 'shift'}[y.op]), x.loc())
+                else:
+                    ck.ok(R, '%s/%s %s: coordinate widened before use' % (un, fn, x.loc()))
